@@ -19,6 +19,7 @@ from . import sym
 from .sym import (SBool, SInt, SBV, SReal, And, Or, Not, Implies, eq, truth as scalar_truth,
                   mkbool, is_sym)
 from . import purity
+from .values import UnionT
 from .values import (Unsupported, PyExc, MISSING, Class, TypeDummy, Instance, EnumMember, SEnum,
                      all_dc_fields, Function, Builtin, BoundMethod, Property, StaticMethod,
                      ClassMethod, Module, Coroutine, BytesVal, ABytes, SStr, DequeVal, SetVal,
@@ -582,8 +583,10 @@ class Interp:
     def isinstance_(self, obj, cls):
         if isinstance(cls, tuple):
             return any(self.isinstance_(obj, c) for c in cls)
+        if isinstance(cls, UnionT) and cls.members is not None:
+            return any((obj is None) if m is None else self.isinstance_(obj, m) for m in cls.members)
         if isinstance(cls, TypeDummy):
-            return True
+            raise Unsupported("isinstance against a typing construct whose members are not modelled")
         c = self.class_of(obj)
         if c is None:
             return False
@@ -1815,6 +1818,8 @@ class Interp:
         raise Unsupported(f"bytes items of {type(v).__name__}")
 
     def binop(self, op, a, b):
+        if isinstance(op, ast.BitOr) and (isinstance(a, (Class, UnionT)) or isinstance(b, (Class, UnionT))):
+            return UnionT.of(a, b)
         if isinstance(a, TypeDummy) or isinstance(b, TypeDummy):
             return TypeDummy()
         if isinstance(op, ast.BitOr) and (isinstance(a, Class) or isinstance(b, Class) or (a is None and isinstance(b, (Class, TypeDummy))) or (b is None and isinstance(a, (Class, TypeDummy)))):
